@@ -203,42 +203,48 @@ func (c *Config) Parent() *Config {
 
 // FlattenedKeys return a sorted flattened views of the set keys in the configuration
 func (c *Config) FlattenedKeys(opts ...Option) []string {
-	var keys []string
 	normalizedOptions := makeOptions(opts)
 
 	if normalizedOptions.pathSep == "" {
 		normalizedOptions.pathSep = "."
 	}
 
-	if c.IsDict() {
-		for _, v := range c.fields.dict() {
+	keys := c.flattenedKeys(normalizedOptions)
+	sort.Strings(keys)
+	return keys
+}
 
-			subcfg, err := v.toConfig(normalizedOptions)
-			if err != nil {
-				ctx := v.Context()
-				p := ctx.path(normalizedOptions.pathSep)
-				keys = append(keys, p)
-			} else {
-				newKeys := subcfg.FlattenedKeys(opts...)
-				keys = append(keys, newKeys...)
-			}
-		}
-	} else if c.IsArray() {
-		for _, a := range c.fields.array() {
-			scfg, err := a.toConfig(normalizedOptions)
+// flattenedKeys collects the keys below c. All levels share one options
+// object: the references followed on the way down stay registered as active
+// until their subtree has been visited, so a setting that refers to an object
+// enclosing it is detected as a cyclic reference (and listed as a leaf)
+// instead of being followed without end.
+func (c *Config) flattenedKeys(opts *options) []string {
+	var keys []string
 
-			if err != nil {
-				ctx := a.Context()
-				p := ctx.path(normalizedOptions.pathSep)
-				keys = append(keys, p)
-			} else {
-				newKeys := scfg.FlattenedKeys(opts...)
-				keys = append(keys, newKeys...)
-			}
+	visit := func(v value) {
+		parentFields := opts.activeFields
+		opts.activeFields = newFieldSet(parentFields)
+		defer func() { opts.activeFields = parentFields }()
+
+		subcfg, err := v.toConfig(opts)
+		if err != nil {
+			ctx := v.Context()
+			keys = append(keys, ctx.path(opts.pathSep))
+		} else {
+			keys = append(keys, subcfg.flattenedKeys(opts)...)
 		}
 	}
 
-	sort.Strings(keys)
+	if c.IsDict() {
+		for _, v := range c.fields.dict() {
+			visit(v)
+		}
+	} else if c.IsArray() {
+		for _, a := range c.fields.array() {
+			visit(a)
+		}
+	}
 	return keys
 }
 
